@@ -287,6 +287,10 @@ func kinds(seed int64) []kind {
 		if err != nil {
 			vlib.Die("padhash: %v", err)
 		}
+		cached, err := trsa.Deal(vlib.SeededReader{R: rng}, 3, 2, key, true)
+		if err != nil {
+			vlib.Die("deal (cache): %v", err)
+		}
 		ks = append(ks, kind{"tss.rsa", func(round int) []namedCall {
 			ksh := make([]trsa.KeyShare, len(sb))
 			for i := range sb {
@@ -301,6 +305,15 @@ func kinds(seed int64) []kind {
 						return must(nil, err)
 					}
 					return must(s.MarshalBinary())
+				}},
+				{"KeyShare.Sign (cached value, blinded)", func(g int) []byte {
+					// shares dealt with cache set carry the precomputed 2*delta*s_i; blinding adds a random multiple of e to the exponent:
+					// the signature share is the same value, and the share itself must stay what it was
+					s, err := cached[g%2].Sign(&vlib.BytesReader{B: seedOf(round, g, 512)}, &key.PublicKey, digest, false)
+					if err != nil {
+						return must(nil, err)
+					}
+					return append(must(s.MarshalBinary()), must(cached[g%2].MarshalBinary())...)
 				}},
 				{"Sign+Combine", func(g int) []byte {
 					var ss []trsa.SignShare
